@@ -55,7 +55,15 @@ fn check_text(prop: &str, text: &str, rep: &mut Report) {
         rep.eval(r.is_ok() || text.len() > 1, fnv(text.as_bytes()) ^ (o.trunc as u64) << 1 ^ (o.invalid as u64));
         let verdict_ok = real.is_ok() == r.is_ok();
         match prop {
-            "C01" | "C03" => {
+            "C03" => {
+                // totality only: no panic (caught above), and the stream is pulled at most once per
+                // character plus the end-of-input probe(s)
+                let pulls = std::cell::Cell::new(0usize);
+                let it = text.chars().map(|c| { pulls.set(pulls.get() + 1); Ok::<_, std::convert::Infallible>(decoded_char::DecodedChar::from_utf8(c)) });
+                let _ = std::panic::catch_unwind(std::panic::AssertUnwindSafe(|| Value::parse_with(it, opts_real(o))));
+                if pulls.get() > chars.len() { rep.violation("each input character is pulled at most once", "pulls", format!("{:?} opts={:?}", text, o), format!("{} characters pulled from a stream of {}", pulls.get(), chars.len())); }
+            }
+            "C01" => {
                 if !verdict_ok { rep.violation("strict acceptance == RFC 8259 reference", "verdict", format!("{:?}", text), format!("real={:?} reference={:?}", real.as_ref().map(|_| "Ok").map_err(|e| format!("{:?}", e)), r.as_ref().map(|_| "Ok"))); }
             }
             "C02" => if let (Ok((v, _)), Ok((rv, _))) = (&real, &r) {
